@@ -4787,7 +4787,8 @@ pub(crate) fn transform_query_shorthand(program_text: &str) -> Result<QueryTrans
                 Term::FloatConstant(val) => {
                     let t = format!("_c{i}");
                     head_vars.push(t.clone());
-                    extra_constraints.push(format!("{t} = {val}"));
+                    // `{:?}` so that the constraint text re-parses as a float (`2.0`, not `2`)
+                    extra_constraints.push(format!("{t} = {val:?}"));
                     t
                 }
                 Term::BoolConstant(val) => {
